@@ -28,6 +28,7 @@ var (
 	fReplays  = flag.String("replaydir", "", "directory for replay files")
 	fSrcHash  = flag.String("srchash", "", "hash of the instrumented sources (recorded in replay files)")
 	fRecheck  = flag.Int("recheck", 50, "re-execute every n-th case and compare trace hashes (determinism guard)")
+	fGrid     = flag.Bool("grid", false, "run the property's enumerated grid (exhaustive, no random search)")
 )
 
 type knownFinding struct {
@@ -167,6 +168,10 @@ func TestWorker(t *testing.T) {
 	}()
 	if *fReplay != "" {
 		replay(t, p)
+		return
+	}
+	if *fGrid {
+		grid(t, p)
 		return
 	}
 	search(t, p)
@@ -378,4 +383,64 @@ func splitmix(x uint64) uint64 {
 	z = (z ^ (z >> 30)) * 0xBF58476D1CE4E5B9
 	z = (z ^ (z >> 27)) * 0x94D049BB133111EB
 	return z ^ (z >> 31)
+}
+
+// gridder is implemented by properties that also enumerate a finite grid exhaustively.
+type gridder interface{ Grid() []any }
+
+func grid(t *testing.T, p Property) {
+	start := time.Now()
+	g, ok := p.(gridder)
+	res := WorkerResult{Property: p.ID(), Seed: *fSeed, KnownHits: map[string]int{}, Probes: map[string]int64{}, Faults: map[string]int{}, Rule: p.Rule(), Level: p.Level()}
+	if ok {
+		known := loadKnown(*fKnown, p.ID())
+		hashes := map[uint64]struct{}{}
+		reported := map[string]bool{}
+		for i, scn := range g.Grid() {
+			out := RunCase(t, p, scn, scn.(knobbed).knobs(), nil, false)
+			res.Cases++
+			res.Steps += int64(out.Steps)
+			res.EnvActs += int64(out.EnvActs)
+			res.SimMs += out.SimTimeMs
+			for k, v := range out.Probes {
+				res.Probes[k] += v
+			}
+			for k, v := range out.Faults {
+				res.Faults[k] += v
+			}
+			if out.Reached {
+				res.NonTrivial++
+				b, _ := json.Marshal(scn)
+				f := fnv.New64a()
+				f.Write(b)
+				hashes[f.Sum64()] = struct{}{}
+			}
+			if len(res.Samples) < 2 && out.Reached {
+				b, _ := json.Marshal(map[string]any{"grid_index": i, "scenario": scn})
+				res.Samples = append(res.Samples, b)
+			}
+			for _, v := range out.Violations {
+				if _, ok := known[v.Signature]; ok {
+					res.KnownHits[v.Signature]++
+					continue
+				}
+				if reported[v.Signature] {
+					continue
+				}
+				reported[v.Signature] = true
+				full := RunCase(t, p, scn, scn.(knobbed).knobs(), nil, true)
+				raw, _ := json.Marshal(scn)
+				rf := ReplayFile{Property: p.ID(), Seed: *fSeed, Scenario: raw, Violation: v, TraceHash: strconv.FormatUint(full.TraceHash, 16), SrcHash: *fSrcHash, Steps: full.Steps, Trace: full.Trace, Outcome: full}
+				path := filepath.Join(*fReplays, fmt.Sprintf("%s-grid-%s-%d.json", p.ID(), sanitize(v.Signature), i))
+				os.MkdirAll(*fReplays, 0o755)
+				writeJSON(path, rf)
+				res.Violations = append(res.Violations, ReplayRef{Signature: v.Signature, Clause: v.Clause, Detail: short(v.Detail, 1500), Replay: path})
+			}
+		}
+		for h := range hashes {
+			res.Hashes = append(res.Hashes, "grid"+strconv.FormatUint(h, 16))
+		}
+	}
+	res.WallS = time.Since(start).Seconds()
+	writeJSON(*fOut, res)
 }
